@@ -152,6 +152,45 @@ def run(F, chk):
                               "orphaned and pruned" % (b, a))
     chk.floor(R1, 14)
 
+    # ---------------------------------------------------------------- R12.3
+    R3 = chk.rule("R12.3", "both conversion directions update the same members of the shape's skin blocks (derived state such as the "
+                           "partition index convention must be re-established whichever way the shape is converted)")
+    skin_classes = set(n for n, r in F.recs.items() if r.get("file") == "include/Skin.hpp" and r.get("tmpl") is None
+                       and F.derives_from(n, "nifly::NiObject"))
+    chk.require(len(skin_classes) >= 4, "skin block classes not found")
+    sk = []
+    for n in walk(fn["body"]):
+        tgt = None
+        if n["k"] == "Assign":
+            tgt = n["l"]
+        elif n["k"] == "OpCall" and n.get("op") == "=" and n.get("args"):
+            tgt = n["args"][0]
+        m = tgt
+        while is_node(m) and m["k"] in ("Subscript", "Cast"):
+            m = m.get("base") if m["k"] == "Subscript" else m["e"]
+        if is_node(m) and m["k"] == "Member" and m.get("mk") == "field" and m.get("owner") in skin_classes:
+            sk.append((n, "%s::%s" % (m["owner"], m["name"])))
+    ids3 = {id(n) for n, _ in sk}
+    col3 = flow.Collect(F, fn, lambda n: id(n) in ids3)
+    col3.run()
+    by = {"toSSE": set(), "toLE": set()}
+    name_of = {id(n): nm for n, nm in sk}
+    for n, sts in col3.by_node():
+        if all(flow.has_guard(st, "toSSE", True) for st in sts):
+            by["toSSE"].add(name_of[id(n)])
+        elif all(flow.has_guard(st, "toLE", True) or flow.has_guard(st, "toSSE", False) for st in sts):
+            by["toLE"].add(name_of[id(n)])
+    chk.extra["skin_state_updated"] = {k: sorted(v) for k, v in by.items()}
+    for mname in sorted(by["toSSE"] | by["toLE"]):
+        ok = mname in by["toSSE"] and mname in by["toLE"]
+        chk.instance(R3, ok=ok, sample={"member": mname, "toSSE": mname in by["toSSE"], "toLE": mname in by["toLE"]})
+        if not ok:
+            miss = "LE -> SE" if mname not in by["toSSE"] else "SE -> LE"
+            chk.violation("R12.3", "C12/R12.3:%s:%s" % (mname, "toSSE" if mname not in by["toSSE"] else "toLE"), where(fn),
+                          "OptimizeFor re-establishes %s when converting in one direction but not in the other (%s): the skin "
+                          "block keeps the state of the source format" % (mname, miss))
+    chk.floor(R3, 1)
+
     # ---------------------------------------------------------------- R12.2
     def make(assume_terrain):
         class M(flow.Flow):
